@@ -684,7 +684,7 @@ func (vn *vnNet) nodeEpoch(n *vnNode) int {
 func (vn *vnNet) deliverMsg(m *vnMsg, kind string) {
 	to := vn.nodes[m.to]
 	if !to.up || to.h == nil {
-		vn.tr.Emit("Recv", vlib.E{"to": m.to, "from": m.from, "round": m.pkt.Round, "prevd": vnDigest(m.pkt.PreviousSignature), "kind": kind, "res": "down", "msg": m.id})
+		vn.tr.Emit("Recv", vlib.E{"to": m.to, "from": m.from, "round": vnCapRound(m.pkt.Round), "prevd": vnDigest(m.pkt.PreviousSignature), "kind": kind, "res": "down", "msg": m.id})
 		return
 	}
 	c := vn.c(to.addr)
@@ -704,7 +704,7 @@ func (vn *vnNet) deliverMsg(m *vnMsg, kind string) {
 	ctx := peer.NewContext(context.Background(), &peer.Peer{Addr: vnAddr(fromAddr)})
 	var err error
 	// logged BEFORE the call: the aggregator may store the beacon before ProcessPartialBeacon returns
-	vn.tr.Emit("Deliver", vlib.E{"to": m.to, "from": m.from, "idx": idx, "round": m.pkt.Round, "prevd": vnDigest(m.pkt.PreviousSignature),
+	vn.tr.Emit("Deliver", vlib.E{"to": m.to, "from": m.from, "idx": idx, "round": vnCapRound(m.pkt.Round), "prevd": vnDigest(m.pkt.PreviousSignature),
 		"kind": kind, "valid": valid, "member": member, "own": own, "epoch": ep, "msg": m.id})
 	r := vlib.Call(20*time.Second, func() { _, err = to.h.ProcessPartialBeacon(ctx, m.pkt) })
 	res := "ok"
@@ -717,8 +717,17 @@ func (vn *vnNet) deliverMsg(m *vnMsg, kind string) {
 	}
 	accepted := atomic.LoadInt64(&c.aggSubmit) > before
 	vn.act()
-	vn.tr.Emit("Recv", vlib.E{"to": m.to, "from": m.from, "idx": idx, "round": m.pkt.Round, "prevd": vnDigest(m.pkt.PreviousSignature),
+	vn.tr.Emit("Recv", vlib.E{"to": m.to, "from": m.from, "idx": idx, "round": vnCapRound(m.pkt.Round), "prevd": vnDigest(m.pkt.PreviousSignature),
 		"kind": kind, "valid": valid, "member": member, "own": own, "res": res, "accepted": accepted, "toClock": vn.T(to), "epoch": ep, "msg": m.id})
+}
+
+// vnCapRound keeps logged rounds inside TLC's integer range (adversarial partials may carry rounds near 2^64); a
+// capped round is still far beyond any clock of a run.
+func vnCapRound(r uint64) uint64 {
+	if r > 1<<30 {
+		return 1 << 30
+	}
+	return r
 }
 
 func (vn *vnNet) takeMsg(pred func(m *vnMsg) bool) *vnMsg {
